@@ -757,4 +757,4 @@ TECHNIQUE = 'Coq proofs about an executable model + differential correspondence 
 DESIGN_REF = 'DESIGN.md section 5, C16'
 ALLOWED_AXIOMS = []
 SEARCH_ROUNDS = 2
-READY = False
+READY = True
